@@ -411,12 +411,26 @@ fn conform(bits: u32) -> Result<u64, String> {
     let types = gen(bits);
     let doc = yaml(&types, "Main");
     let mut ex = Expect::default();
-    instantiate(&types, resolve_ty(&types, "Main"), "", "Main", &mut ex);
+    // every 16th document is built as a module block below the scope `site` of a simulation
+    // that already has other nodes (Ndl::from_str + Sim::node) instead of nodes_from_ndl
+    let scoped = bits % 16 == 5;
+    instantiate(&types, resolve_ty(&types, "Main"), if scoped { "site" } else { "" }, "Main", &mut ex);
+    if scoped {
+        ex.modules.insert("other".into(), "Leaf".into());
+        ex.gates.insert("other".into(), BTreeSet::new());
+    }
     let d2 = doc.clone();
     let res = quiet_catch(move || -> Result<Expect, String> {
-        let def: Def = serde_yml::from_str(&d2).map_err(|e| format!("document does not parse: {e}"))?;
         let mut sim = Sim::new(());
-        sim.nodes_from_ndl(&def, registry!()).map_err(|e| format!("building a realisable description failed: {e}"))?;
+        if scoped {
+            sim.node("other", Sym("Leaf".into()));
+            let mut reg = registry!();
+            let ndl = Ndl::from_str(&mut reg, &d2).map_err(|e| format!("elaborating a realisable description failed: {e}"))?;
+            sim.node("site", ndl).map_err(|e| format!("building a realisable description below a scope failed: {e}"))?;
+        } else {
+            let def: Def = serde_yml::from_str(&d2).map_err(|e| format!("document does not parse: {e}"))?;
+            sim.nodes_from_ndl(&def, registry!()).map_err(|e| format!("building a realisable description failed: {e}"))?;
+        }
         Ok(observe(&sim))
     });
     let got = match res {
@@ -616,7 +630,7 @@ impl Property for C18 {
     }
     fn rule(&self, tier: Tier) -> String {
         format!(
-            "conformance: all 2^{NBITS} = 65536 documents of the feature-bit grammar (cluster gates, generic Mid with one or two type arguments (bound to different types), inherited argument type, several fields typed with the same parameter, submodule clusters incl. size one, a type inheriting gates / submodules / connections with and without own additions, a second level of inheritance, a generic whose interface contains an instantiated generic submodule, nested/cluster/indexed connections with and without link, inherited cluster element type, cluster-to-cluster and indexed connections at the top level, the same gate pair stated twice: verbatim, as an indexed restatement of a group statement, and by a child type restating an inherited connection, endpoints three segments deep (a grandchild's gate, plain and through clusters)) built with nodes_from_ndl and compared with a reference elaborator (modules with registered software, gate clusters, connections incl. link metrics and queue size); \
+            "conformance: all 2^{NBITS} = 65536 documents of the feature-bit grammar (cluster gates, generic Mid with one or two type arguments (bound to different types), inherited argument type, several fields typed with the same parameter, submodule clusters incl. size one, a type inheriting gates / submodules / connections with and without own additions, a second level of inheritance, a generic whose interface contains an instantiated generic submodule, nested/cluster/indexed connections with and without link, inherited cluster element type, cluster-to-cluster and indexed connections at the top level, the same gate pair stated twice: verbatim, as an indexed restatement of a group statement, and by a child type restating an inherited connection, endpoints three segments deep (a grandchild's gate, plain and through clusters)) built with nodes_from_ndl (every 16th document: as an Ndl module block below a scope of a simulation that already has a node) and compared with a reference elaborator (modules with registered software, gate clusters, connections incl. link metrics and queue size); \
              semantic mutations: {} single-point mutations (one per error cause of the statement) applied to {} generated documents, each must yield an error; \
              textual mutations: every scalar of {} base documents replaced by each of {} garbled/dangling tokens, outcome must be a network or an error, never a panic; \
              non-trivial = document that has at least one connection (conformance) or every mutated document (totality)",
